@@ -10,6 +10,8 @@ import (
 	"strings"
 	"time"
 
+	"google.golang.org/protobuf/encoding/protojson"
+	"google.golang.org/protobuf/proto"
 	"google.golang.org/protobuf/reflect/protoreflect"
 	"google.golang.org/protobuf/reflect/protoregistry"
 	"google.golang.org/protobuf/types/dynamicpb"
@@ -241,3 +243,5 @@ func canonJSONBytes(b []byte) any {
 	}
 	return v
 }
+
+func protojsonUnmarshal(b []byte, m proto.Message) error { return protojson.Unmarshal(b, m) }
